@@ -370,5 +370,51 @@ def cd_memo(prog: Program) -> RuleResult:
     return r
 
 
+# rustworkx calls that address an edge by its two end points: with parallel edges they see (or remove) one arbitrary edge of the pair
+BY_ENDPOINTS = {"get_edge_data", "adj", "adj_direction", "has_edge", "remove_edge", "update_edge", "get_all_edge_data_first"}
+
+
+def _endpoint_lookups(fn_node) -> List[ast.Call]:
+    """by-end-point calls, except where the end points are what the *caller* handed in (a loop over a parameter): then addressing an edge
+    by its end points is the function's contract, not a lookup of an edge the function enumerated itself"""
+    params = {a.arg for a in fn_node.args.posonlyargs + fn_node.args.args + fn_node.args.kwonlyargs}
+    from_params = set()
+    for lp in [x for x in ast.walk(fn_node) if isinstance(x, ast.For)]:
+        if isinstance(lp.iter, ast.Name) and lp.iter.id in params:
+            from_params |= {y.id for y in ast.walk(lp.target) if isinstance(y, ast.Name)}
+    out = []
+    for c in ast.walk(fn_node):
+        if isinstance(c, ast.Call) and isinstance(c.func, ast.Attribute) and c.func.attr in BY_ENDPOINTS and not (isinstance(c.func.value, ast.Name) and c.func.value.id == "self"):
+            names = {y.id for a in c.args for y in ast.walk(a) if isinstance(y, ast.Name)}
+            if names and names <= (from_params | params - {"self"}):
+                continue
+            out.append(c)
+    return out
+
+
+def cd_multi(prog: Program) -> RuleResult:
+    """The diagram is a multigraph: a class and its subclass are connected by an inheritance edge and, when a field of the class has the
+    subclass as its type, by an association edge as well. Code that means one particular edge must not address it by its end points."""
+    r = RuleResult("CD-MULTI", "edges of the diagram are never looked up or removed by their end points", floor=0)
+    n = 0
+    for m in prog.modules.values():
+        if ".class_diagrams" not in m.name:
+            continue
+        for f in [f for f in prog.functions.values() if f.module is m]:
+            hits = _endpoint_lookups(f.node)
+            if not any(isinstance(x, ast.Attribute) and x.attr == "_dependency_graph" for x in ast.walk(f.node)) and not hits:
+                continue
+            n += 1
+            r.check(not hits, f"{f.short}#edges-by-index", site(f, hits[0]) if hits else site(f), src(hits[0])[:80] if hits else "",
+                    "edges are enumerated with their data (weighted_edge_list / out_edges / edge_index_map)",
+                    f"{src(hits[0])[:60] if hits else ''} addresses an edge by its end points: when an inheritance and an association connect the same two classes only one of them is "
+                    f"seen (Node(kids: List[Kid]), Kid(Node): the inheritance is missing from parent_map, the association from the neighbours)")
+    r.note(f"{n} functions touch the dependency graph")
+    ctl = ast.parse("def f(self):\n    for u, v in self._dependency_graph.edge_list():\n        rel = self._dependency_graph.get_edge_data(u, v)\n").body[0]
+    ok = ast.parse("def f(self):\n    for u, v, rel in self._dependency_graph.weighted_edge_list():\n        pass\n").body[0]
+    r.control_ok = bool(_endpoint_lookups(ctl)) and not _endpoint_lookups(ok)
+    return r
+
+
 def run(prog: Program, tier: str) -> List[RuleResult]:
-    return [wf_table(prog), cd_edges(prog), cd_readonly(prog), cd_memo(prog)]
+    return [wf_table(prog), cd_edges(prog), cd_readonly(prog), cd_memo(prog), cd_multi(prog)]
